@@ -19,7 +19,8 @@ CLAIM = {
             "transaction differs from the supplied one as a whole (the compared operands are the full built "
             "transaction and *tx, not a digest of them) or when outputs and witscripts differ in number; (R4.3) the "
             "values validated (build_*_commitment_info) and the values signed/recomposed (make_*_commitment_tx) trace "
-            "slot by slot to the same parameters, on the counterparty and on the holder side; (R4.4) argument roles: "
+            "slot by slot to the same parameters, on the counterparty and on the holder side, and the info builders "
+            "forward their parameters unmodified (re-ordering apart) into same-named CommitmentInfo2 fields; (R4.4) argument roles: "
             "the builders pass each value to the LDK CommitmentTransaction constructor parameter of the matching role "
             "(counterparty tx: broadcaster = counterparty; holder tx: broadcaster = holder), with "
             "INITIAL_COMMITMENT_NUMBER - n, and make_channel_parameters / htlcs_info2_to_oic fill same-named fields "
@@ -143,9 +144,71 @@ def r42(ctx):
                              sinks=sinks)
 
 
+def _passthrough(ctx, b, callee, want, key):
+    """the info builder hands its parameters, unmodified, to `callee` in the stated roles"""
+    fv = fnview(ctx, b, policy=False)
+    sites = [(bi, c) for bi, c in b.calls() if c.callee and c.callee.name == callee]
+    ctx.ob("R4.3", len(sites) == 1, f"{b.name}/{key}/single-call", f"{len(sites)} calls of {callee}", where=f"{b.file}:{b.line}")
+    for bi, c in sites:
+        got = []
+        for a in c.args:
+            e = fv.expr(a)
+            got.append(e[1] if e[0] in ("param", "k") else render(e)[:60])
+        ctx.ob("R4.3", got == want, f"{b.name}/{key}/roles",
+               f"`{b.name}` passes {got} to {callee.rsplit('::', 2)[-2]}::new (expected {want}): the content that is validated and "
+               f"recorded is not the content the caller supplied", where=f"{b.file}:{c.line}", sample=got)
+    # none of the forwarded parameters is modified on the way (retain / truncate / push ... need a &mut borrow);
+    # re-ordering is harmless because CommitmentInfo2::new sorts the lists anyway
+    for l in range(1, b.argc + 1):
+        nm = b.local_name(l)
+        if nm in want:
+            bad = sorted(_mutators(fv, nm) - SORT_ONLY) if (fv._mut_borrowed(l) or fv._mut_partial(l)) else []
+            if (fv._mut_borrowed(l) or fv._mut_partial(l)) and not _mutators(fv, nm):
+                bad = ["<direct write>"]
+            ctx.ob("R4.3", not bad, f"{b.name}/{key}/unmodified/{nm}",
+                   f"`{b.name}` modifies its parameter `{nm}` ({bad}) before building the validated content: what is validated and "
+                   f"recorded differs from what the caller supplied (and may sign)", where=f"{b.file}:{b.line}", sample=f"{nm} forwarded unmodified")
+
+
+SORT_ONLY = {"<std::vec::Vec<T, A> as std::ops::DerefMut>::deref_mut", "std::slice::<impl [T]>::sort",
+             "std::slice::<impl [T]>::sort_unstable"}
+
+
+def _mutators(fv, pname):
+    """names of the callees that receive a reference to parameter `pname` (directly or through deref_mut)"""
+    out = set()
+    for bi, c in fv.b.calls():
+        for a in c.args:
+            e = fv.expr(a)
+            if c.callee and any(x[0] == "ref" and x[1][0] == "param" and x[1][1] == pname for x in subexprs(e)):
+                out.add(c.callee.name)
+    return out
+
+
 def r43(ctx):
     ctx.rule("R4.3", "validated values and signed values trace to the same parameters slot by slot")
     p = ctx.prog
+    NEW = LS + "tx::tx::CommitmentInfo2::new"
+    _passthrough(ctx, p.fn(f"{CH}::build_counterparty_commitment_info"), NEW,
+                 ["true", "to_holder_value_sat", "to_counterparty_value_sat", "offered_htlcs", "received_htlcs", "feerate_per_kw"], "info")
+    _passthrough(ctx, p.fn(f"{CH}::build_holder_commitment_info"), NEW,
+                 ["false", "to_counterparty_value_sat", "to_holder_value_sat", "offered_htlcs", "received_htlcs", "feerate_per_kw"], "info")
+    # CommitmentInfo2::new: fields from the same-named parameters; the lists are only sorted
+    nb = p.fn(NEW)
+    nv = fnview(ctx, nb, policy=False)
+    for bb, bi, si, st in R.constructions(p, LS + "tx::tx::CommitmentInfo2"):
+        if bb is not nb:
+            continue
+        for fname, op in zip(st.rv.a[3], st.rv.ops):
+            e = peel(nv.expr(op))
+            ctx.ob("R4.3", e[0] == "param" and e[1] == fname, f"{nb.name}/field/{fname}", f"CommitmentInfo2.{fname} <- `{render(e)[:60]}`",
+                   where=f"{nb.file}:{st.line}", sample=f"{fname} <- {fname}")
+    mut_calls = set()
+    for l in range(1, nb.argc + 1):
+        mut_calls |= _mutators(nv, nb.local_name(l))
+    allowed = SORT_ONLY
+    ctx.ob("R4.3", mut_calls <= allowed, f"{nb.name}/only-sorts", f"CommitmentInfo2::new applies {sorted(mut_calls - allowed)} to its lists",
+           where=f"{nb.file}:{nb.line}", sample=sorted(mut_calls))
     # semantic counterparty entry
     b = p.fn(f"{CH}::sign_counterparty_commitment_tx_phase2")
     fv = fnview(ctx, b)
